@@ -189,7 +189,27 @@ def run_impl(case):
                     if type(x).get_param_descriptor(op['n'])[0] is None:
                         res = 'skip'
                     else:
-                        setattr(x, op['n'], okeep[op['v']])
+                        own = x._param__private.params.get(op['n'])
+                        gov = own if own is not None else type(x).get_param_descriptor(op['n'])[0]
+                        if op.get('asref') and gov.allow_refs and (gov.constant or gov.readonly) and x._param__private.initialized \
+                                and getattr(x, op['n']) is not okeep[op['v']]:
+                            # the same assignment made with a REFERENCE that resolves to the object (a Parameter of a
+                            # source object holding it), only where the governing Parameter is locked right now and the
+                            # object is not the one held: the guard must refuse it as it refuses the plain object, and a
+                            # refused assignment installs no link - the source is re-assigned straight away and the
+                            # locked parameter must not follow it (the model knows nothing of the source)
+                            src = _ref_source(okeep[op['v']])
+                            refused = False
+                            try:
+                                setattr(x, op['n'], src.param.v)
+                            except TypeError:
+                                refused = True
+                                raise
+                            finally:
+                                if refused:
+                                    src.v = _Fresh()
+                        else:
+                            setattr(x, op['n'], okeep[op['v']])
                 elif o == 'instSetSame':
                     x = inst(op['i'])
                     if type(x).get_param_descriptor(op['n'])[0] is None:
@@ -540,6 +560,26 @@ def _random_case(rng):
     return _mk(shape, decls, _sanitize(ops))
 
 
+class _Fresh:
+    """an object no case knows: what a source is re-assigned after a refused reference assignment"""
+
+
+def _ref_source(value):
+    import param
+    global _RefSource
+    if '_RefSource' not in globals():
+        _RefSource = type('_RefSource', (param.Parameterized,), {'v': param.Parameter()})
+    return _RefSource(v=value)
+
+
+def _with_refs(case, rng):
+    """half of the plain assignments to the allow_refs parameters become assignments of a reference (harness only)"""
+    for op, _d, _o, _os in _walk(case['steps']):
+        if op['op'] == 'instSet' and op.get('n') in ('a', 'b') and rng.random() < 0.5:
+            op['asref'] = True
+    return case
+
+
 def cases(rng, tier, worker, nworkers):
     import glob
     import json
@@ -562,7 +602,7 @@ def cases(rng, tier, worker, nworkers):
                 yield _mk('chain2', [STD, []], _sanitize([dict(o) for o in prefix + list(combo)]))
     n_random = 2500 if tier == 'quick' else 48000 // nworkers
     for _ in range(n_random):
-        yield _random_case(rng)
+        yield _with_refs(_random_case(rng), rng)
 
 
 def _walk(ops, depth=0, owner=None, owners=()):
